@@ -8,5 +8,6 @@ import (
 	_ "verif/scenarios/c11"
 	_ "verif/scenarios/c12"
 	_ "verif/scenarios/c13"
+	_ "verif/scenarios/c14"
 	_ "verif/scenarios/c17"
 )
